@@ -7,6 +7,7 @@
 //!   nsim replay <replay.json>
 //!   nsim plan <ID> --seed N --index I [--tier T]        print the plan of one case
 //!   nsim selftest determinism <ID> [--cases N]
+//!   nsim selftest async [--cases N] [--seed N] [--kind K] [--max-print M]
 
 mod aexec;
 mod checks;
@@ -199,8 +200,15 @@ fn real_main(args: &[String]) -> i32 {
                     let seed = arg_val(args, "--seed").and_then(|s| s.parse().ok()).unwrap_or_else(env_seed);
                     checks::selftest_domain(seed, cases, arg_val(args, "--kind"))
                 }
+                "async" => {
+                    let cases = arg_val(args, "--cases").and_then(|s| s.parse().ok()).unwrap_or(5);
+                    let seed = arg_val(args, "--seed").and_then(|s| s.parse().ok()).unwrap_or_else(env_seed);
+                    let max_print = arg_val(args, "--max-print").and_then(|s| s.parse().ok()).unwrap_or(10);
+                    worker::install_panic_hook();
+                    checks::selftest_async(seed, cases, arg_val(args, "--kind"), max_print)
+                }
                 _ => {
-                    eprintln!("usage: nsim selftest determinism <ID>");
+                    eprintln!("usage: nsim selftest determinism <ID> | domain | async [--cases N] [--seed N] [--kind K] [--max-print M]");
                     2
                 }
             }
